@@ -79,7 +79,12 @@ MANIFEST = dict(
          "refusal branches that truncation and allocation failure never enter), and by the companion-file search for the multi-file "
          "formats (Startrekker .nt/.NT/.as/.AS, MFP smp.*, MED2/3/4, MOD and STM song instruments: companion missing, a directory, "
          "empty, cut at every byte of its head and at sampled lengths, and every allocation failing while it is read; the check "
-         "verifies that each world really opens its companion). Reusability after a failed START: proved at ledger level for every oracle and at member level through "
+         "verifies that each world really opens its companion), by WELL-FORMED archives whose member is empty / one / two "
+         "bytes long for every built-in container (a depacker that succeeds with nothing to hand over: gzip, bzip2, xz, zip "
+         "stored/deflated/first-of-two, compress, lha 0/1/2, arc 1/2/3, Spark, ArcFS, lzx, PowerPacker, MMCMP - intact through "
+         "load/test by path and test by FILE, cut at every byte, every allocation failing incl. the reopen of the handle on the "
+         "unpacked data), and by the temp-file fault schedule for files routed to an external helper (TMPDIR missing / a regular "
+         "file, mkstemp refused, libc mkstemp at the descriptor limit, fdopen failing; load and test). Reusability after a failed START: proved at ledger level for every oracle and at member level through "
          "C06's model, under the hypotheses that the module has a playable order (the start then leaves mod->len alone) and that the "
          "scan reached the start order; what playback computes from the player view is C06's trusted part. The smix model assumes "
          "that xmp_smix_load_sample writes the slot only at its commit (checked on every run from smix.c: any earlier `xxi->`/`xxs->` "
@@ -207,6 +212,29 @@ def lsan_sites(stderr):
     return sorted(set(out))
 
 
+def abort_signature(err):
+    """signature of a sanitizer abort.  Double frees and uses after free are named by the libxmp site that trips over
+    the block and the libxmp site that released it (`double-free:depacker.c:decrunch_internal<-unxz.c:decrunch_xz`):
+    vlib's `kind@function` would call all of them `attempting@free`.  Everything else keeps vlib's form."""
+    m = re.search(r"ERROR: AddressSanitizer: (attempting double-free|heap-use-after-free)", err)
+    if not m:
+        return vlib.sanitizer_signature(err)
+    kind = "double-free" if "double" in m.group(1) else "use-after-free"
+
+    def first_lib_frame(text):
+        for fm in re.finditer(r"#\d+ 0x[0-9a-f]+ in (\w+) (\S+?):\d+", text):
+            fn, path = fm.group(1), fm.group(2)
+            if "/src/" in path and "/harness/" not in path:
+                return "%s:%s" % (os.path.basename(path), fn)
+        return None
+    head, _, rest = err.partition("freed by thread")
+    here = first_lib_frame(head)
+    prev = first_lib_frame(rest.split("previously allocated by")[0]) if rest else None
+    if not here:
+        return vlib.sanitizer_signature(err)
+    return "%s:%s%s" % (kind, here, "<-" + prev if prev else "")
+
+
 def leak_signature(alloc_sig, fault):
     """A block leaked by a format loader / depacker is attributed to that file and to the function whose
     allocation failed (`leak:<loader file>:<function of the failed call>`); everything else keeps the
@@ -268,7 +296,7 @@ def _run_faults_job(job):
                 res["aborts"].append({"sig": "harness-usage", "args": list(args), "stderr": err[-500:], "k": None})
             break
         # aborted (sanitizer report, crash or timeout)
-        sig = "timeout" if rc == -999 else vlib.sanitizer_signature(err)
+        sig = "timeout" if rc == -999 else abort_signature(err)
         done = [c for c in cases if c["kind"] == "k"]
         if kpos is None:
             res["aborts"].append({"sig": sig, "args": list(args), "stderr": err[-3500:], "k": None, "pending": pv})
@@ -285,6 +313,45 @@ def _run_faults_job(job):
             break
         args[kpos] = str(crashed + stride)
     return res
+
+
+def split_long_jobs(R, jobs, chunk=1200):
+    """An every-allocation-index enumeration runs its indices one after the other in one process; a module with
+    thousands of allocator calls then decides the wall time of the whole check.  Such jobs are split into index ranges
+    that run in parallel: a cheap baseline-only pass (kfrom = -1) tells the number of allocator calls.  Same indices,
+    same oracles - only the schedule changes."""
+    cand = []
+    for j in jobs:
+        a = j["args"]
+        # (the file size says nothing: a 939-byte ULT makes 9110 allocator calls)
+        if a[0] == "faults" and a[1] == "load" and j.get("kpos") == 4 and a[4] == "0" and a[5] == "-1" and a[6] == "1":
+            cand.append(j)
+    if not cand:
+        return jobs
+
+    def probe(j):
+        pj = dict(j, args=j["args"][:4] + ["-1", "0", "1"] + j["args"][7:], kpos=None)
+        r = _run_faults_job(pj)
+        for c in r["cases"]:
+            if c["kind"] == "base":
+                return int(c["f"].get("n", "0"))
+        return 0
+    ns = vlib.pmap(probe, cand)
+    out = [j for j in jobs if j not in cand]
+    nsplit = 0
+    for j, n in zip(cand, ns):
+        if n <= chunk * 2:
+            out.append(j)
+            continue
+        nsplit += 1
+        for lo in range(0, n, chunk):
+            d = R.job_dir()
+            old = j["env"].get("C04_SCRATCH", "")
+            env = {k: (v.replace(old, d) if old else v) for k, v in j["env"].items()}
+            args = j["args"][:4] + [str(lo), str(min(n - 1, lo + chunk - 1)), "1"] + j["args"][7:]
+            out.append(dict(j, args=args, env=env))
+    R.bump("long_enumerations_split", nsplit)
+    return out
 
 
 def fold(R, res):
@@ -532,7 +599,13 @@ def _run(ck, R, exe, quick, scratch, gen=None):
             env=lambda d: base_env(d, tmpdir=os.path.join(d, "does-not-exist")), malformed=True)
         add("tmpdir-missing-test:" + os.path.basename(arch), ["faults", "test", "path", arch, -1, 0, 1],
             env=lambda d: base_env(d, tmpdir=os.path.join(d, "does-not-exist")), malformed=True)
-        for which in (1, 2, 11, 12):
+        # TMPDIR names a regular file (ENOTDIR) / the temp directory vanishes between the calls is the same path
+        notdir = os.path.join(scratch, "tmp-is-a-file")
+        open(notdir, "wb").write(b"x")
+        for op in ("load", "test"):
+            add("tmpdir-notdir:%s:%s" % (op, os.path.basename(arch)), ["faults", op, "path", arch, -1, 0, 1],
+                env=lambda d: base_env(d, tmpdir=notdir), malformed=True)
+        for which in (1, 2, 3, 11, 12, 13):
             add("tempfault%d:%s" % (which, os.path.basename(arch)), ["tempfault", arch, which], malformed=True)
     # H. smix
     wav = os.path.join(scratch, "s.wav")
@@ -573,8 +646,14 @@ def _run(ck, R, exe, quick, scratch, gen=None):
     for i, (m, end) in enumerate(core):
         bn = os.path.basename(m)
         ents = ["mem", ENTRIES[(i + seed) % 4]] if quick else ENTRIES
-        for e in dict.fromkeys(ents):
-            add("sweep:%s:%s" % (e, bn), ["trunc", e, m] + list(range(0, end + 1)), malformed=True)
+        for ei, e in enumerate(dict.fromkeys(ents)):
+            lens = list(range(0, end + 1))
+            if quick and ei > 0 and end > 3000:
+                # the second entry point of the large inputs (the 4896-byte MIDI block is 153 identical 32-byte records):
+                # every byte of the first and last 700, every record boundary +-1 and every 5th byte in between;
+                # the `mem` sweep of the same file keeps every byte
+                lens = sorted(set(range(0, 700)) | set(range(end - 700, end + 1)) | set(range(700, end - 700, 5)))
+            add("sweep:%s:%s" % (e, bn), ["trunc", e, m] + lens, malformed=True)
             add("load:%s:%s" % (e, bn), ["faults", "load", e, m, 0, -1, 1], kpos=4)
         add("test:%s" % bn, ["faults", "test", ENTRIES[(i + seed + 2) % 4], m, 0, -1, 1], kpos=4)
         add("start:" + bn, ["faults", "start", "mem", m, 0, -1, 1], kpos=4)
@@ -596,6 +675,22 @@ def _run(ck, R, exe, quick, scratch, gen=None):
             for e in ("path", "file"):
                 add("refuse-intact:%s:%s" % (e, bn), ["trunc", e, ap, len(data)], malformed=True)
             continue
+        light = isinstance(fields, str)
+        if light:
+            # degenerate member (empty / one / two bytes): intact through every unpacking entry point, every cut, every
+            # allocation of test (path, FILE) and load (path) failing - incl. the reopen of the handle on the unpacked data
+            for e in ("path", "file"):
+                add("degenerate-intact:%s:%s" % (e, bn), ["trunc", e, ap, len(data)], malformed=True)
+            add("degenerate-sweep:%s" % bn, ["trunc", "path", ap] + list(range(0, len(data) + 1)), malformed=True)
+            add("test:path:" + bn, ["faults", "test", "path", ap, 0, -1, 1], kpos=4)
+            add("test:file:" + bn, ["faults", "test", "file", ap, 0, -1, 1], kpos=4)
+            add("load:path:" + bn, ["faults", "load", "path", ap, 0, -1, 1], kpos=4)
+            if fields == "light-mut":
+                specs = c04_inputs.light_specs(data)
+                nspec += len(specs)
+                for e in ("path", "file"):
+                    add("refuse:%s:%s:0" % (e, bn), ["mutate", e, ap] + specs, malformed=True)
+            continue
         specs = c04_inputs.mutation_specs(data, fields, mrng, quick)
         if fields:
             a9 = {"data": data, "fields": {"f%d" % k: fl for k, fl in enumerate(fields)}}
@@ -607,12 +702,17 @@ def _run(ck, R, exe, quick, scratch, gen=None):
         specs = list(dict.fromkeys(specs))
         nspec += len(specs)
         bn = os.path.basename(ap)
-        for e in ("path", "file"):
+        # quick: the FILE entry (xmp_test_module_from_file: same depackers on a handle that must not be closed) for a
+        # rotating half of the archives
+        for e in (("path", "file") if (not quick or ai % 2 == seed % 2) else ("path",)):
             for c0 in range(0, len(specs), 1500):
                 add("refuse:%s:%s:%d" % (e, bn, c0), ["mutate", e, ap] + specs[c0:c0 + 1500], malformed=True)
         add("refuse-intact:%s" % bn, ["trunc", ENTRIES[(ai + seed) % 2 * 2], ap, len(data)], malformed=True)   # path / file
         if len(data) <= 4096:
             add("refuse-sweep:%s" % bn, ["trunc", "path", ap] + list(range(0, len(data) + 1)), malformed=True)
+        # every allocation of the unpacking failing (test = unpack + probe: cheap) for every archive; the full load
+        # and the FILE entry on a rotating quarter
+        add("test:path:" + bn, ["faults", "test", "path", ap, 0, -1, 1], kpos=4)
         if ai % (4 if quick else 1) == seed % (4 if quick else 1):
             add("load:path:" + bn, ["faults", "load", "path", ap, 0, -1, 1], kpos=4)
             add("test:file:" + bn, ["faults", "test", "file", ap, 0, -1, 1], kpos=4)
@@ -653,6 +753,7 @@ def _run(ck, R, exe, quick, scratch, gen=None):
         add("rescan:scan-playing:" + bn, ["rescan", "scan", 1, m, 0, -1, 1], kpos=4)
 
     import time as _time
+    jobs = split_long_jobs(R, jobs)
     results = vlib.pmap(run_faults_job, jobs)
     t_fold = _time.time()
     for res in results:
